@@ -75,11 +75,12 @@ def main():
     shutil.rmtree(os.path.join(target, "seeded"), ignore_errors=True)
     hard = ("/tmp/seed-%s" % prop) in open(demo).read()      # a demo that hard-codes the agent's worktree proves nothing here
     rec["demo_on_head_with_patch"] = {"exit": rch, "tail": outh[-300:], "hard_coded_worktree": hard}
-    rcc, outc = sh("./check %s --tier %s" % (prop, tier), cwd=VERIF, env=env, timeout=3600)
+    skip = " --skip-lean" if "--skip-lean" in sys.argv else ""      # the change is to the Python sources: the Lean stage is unaffected
+    rcc, outc = sh("./check %s --tier %s%s" % (prop, tier, skip), cwd=VERIF, env=env, timeout=3600)
     if on_repo: sh("git -C /repo checkout -- .")
     else: sh("git checkout -- pysyncobj", cwd=wt)
     viol = [l for l in outc.split("\n") if l.startswith("VIOLATION") or l.startswith("  what:") or l.startswith("INCONCLUSIVE")]
-    rec["check"] = {"cmd": "./check %s --tier %s" % (prop, tier), "against": target, "exit": rcc,
+    rec["check"] = {"cmd": "./check %s --tier %s%s" % (prop, tier, skip), "against": target, "exit": rcc,
                     "lines": viol[:4], "tail": outc[-400:]}
     rec["caught"] = rcc == 1
     if not rec["caught"] and rch == 0 and not hard and rc1 != 0:
